@@ -28,9 +28,11 @@ CONSTANTS = {
         ("THRIFT_FIELD_UUID", _T, r"enum FieldType \{[^}]*?Uuid = (13),", "int"),
         ("THRIFT_FIELD_STOP", _T, r"enum FieldType \{\s*Stop = (0),", "int"),
         ("THRIFT_SKIP_DEPTH", _T, r"const DEFAULT_SKIP_DEPTH: i8 = (64);", "int"),
-        # marker: read_thrift_vec still reserves `list_ident.size` elements before reading any
-        ("THRIFT_VEC_RESERVES_SIZE_FROM_INPUT", _T,
-         r"let mut res = Vec::with_capacity\(list_ident\.size as usize\);\s*for _ in (0)\.\.list_ident\.size \{", "int"),
+        # read_thrift_vec reserves at most MAX_LIST_PREALLOC elements before reading any
+        ("THRIFT_LIST_PREALLOC_MAX", _T, r"const MAX_LIST_PREALLOC: usize = (\d+);", "int"),
+        ("SHAPE_THRIFT_VEC_PREALLOC", _T,
+         r"let mut res = Vec::with_capacity\(list_prealloc\(&list_ident\)\);()\s*for _ in 0\.\.list_ident\.size \{", "intlist"),
+        ("SHAPE_THRIFT_LIST_PREALLOC", _T, r"\(list_ident\.size\.max\(0\) as usize\)\.min\(MAX_LIST_PREALLOC\)()", "intlist"),
         # ---- Avro varints
         ("AVRO_FAST_LEN", _V, r"if let Some\(array\) = buf\.get\(\.\.(10)\) \{\s*return read_varint_array", "int"),
         ("AVRO_FAST_LOOP", _V, r"for \(idx, b\) in buf\.into_iter\(\)\.take\((9)\)\.enumerate\(\)", "int"),
@@ -44,13 +46,13 @@ CONSTANTS = {
         ("AVRO_STREAM_SHIFT_STEP", _V, r"self\.shift \+= (7);", "int"),
         # ---- parquet BitReader::get_vlq_int
         ("MAX_VLQ_BYTE_LEN", _B, r"pub const MAX_VLQ_BYTE_LEN: usize = (\d+);", "int"),
-        ("BITREADER_VLQ_STEP", _B, r"pub fn get_vlq_int\(&mut self\).*?shift \+= (7);\s*assert!\(\s*shift <= MAX_VLQ_BYTE_LEN \* 7,", "int"),
+        ("BITREADER_VLQ_STEP", _B, r"pub fn get_vlq_int\(&mut self\).*?if shift >= MAX_VLQ_BYTE_LEN \* 7 \{\s*return None;\s*\}\s*v \|= \(\(byte & 0x7F\) as i64\) << shift;\s*shift \+= (7);", "int"),
         # ---- SHAPE items: the guard / operand structure the theorems rely on.  An `intlist` item with an
         # empty group only records that the expression still has this shape (LOST otherwise).
         ("SHAPE_BUFFER_SLICE_ASSERT", "arrow-buffer/src/buffer/immutable.rs",
          r"pub fn slice_with_length\(&self, offset: usize, length: usize\) -> Self \{\s*assert!\(\s*offset\.saturating_add\(length\) <= self\.length,()", "intlist"),
         ("SHAPE_IPC_READ_BUFFER", "arrow-ipc/src/reader.rs",
-         r"let start_offset = buf\.offset\(\) as usize;\s*let buf_data = a_data\.slice_with_length\(start_offset, buf\.length\(\) as usize\);()", "intlist"),
+         r"let in_bounds = offset >= 0\s*&& length >= 0\s*&& \(offset as u64\)\.saturating_add\(length as u64\) <= a_data\.len\(\) as u64;\s*if !in_bounds \{\s*return Err\(()", "intlist"),
         ("SHAPE_AVRO_BLOCK_RESERVE", "arrow-avro/src/reader/block.rs",
          r"self\.in_progress\s*\.data\s*\.reserve\(self\.bytes_remaining\.min\(buf\.len\(\)\)\);()", "intlist"),
         ("SHAPE_AVRO_BLOCK_COUNT_SIGN", "arrow-avro/src/reader/block.rs",
